@@ -263,7 +263,7 @@ func genModule(t *rapid.T) (files map[string][]byte, feats map[string]bool, nvar
 	files = map[string][]byte{"go.mod": []byte("module c16mod\n\ngo 1.24\n")}
 	files["hh/hh.go"] = []byte("package hh\n\nimport (\n\t\"embed\"\n\t\"errors\"\n\t\"io\"\n\t\"io/fs\"\n)\n\nfunc H(p []byte) uint32 { return h(p) }\nfunc HS(s string) uint32 { return hs(s) }\n" + helpers)
 	npk := rapid.IntRange(1, 3).Draw(t, "npkgs")
-	var mainBody strings.Builder
+	var mainBody, finalBody strings.Builder // finalBody: every string / []byte variable once more after all the writes
 	var mainImports []string
 	unit := 0
 	for pi := 0; pi < npk; pi++ {
@@ -280,13 +280,13 @@ func genModule(t *rapid.T) (files map[string][]byte, feats map[string]bool, nvar
 		all := tr.sortedFiles()
 		nv := rapid.IntRange(1, 5).Draw(t, "nvars")
 		var vars []embedVar
-		var reuse string
+		var reuse, lastBytes string
 		for v := 0; v < nv; v++ {
 			ev := embedVar{name: fmt.Sprintf("V%d", v)}
-			switch rapid.IntRange(0, 4).Draw(t, "vkind") {
+			switch rapid.IntRange(0, 5).Draw(t, "vkind") {
 			case 0:
 				ev.kind = "string"
-			case 1:
+			case 1, 2:
 				ev.kind = "bytes"
 			default:
 				ev.kind = "fs"
@@ -296,6 +296,13 @@ func genModule(t *rapid.T) (files map[string][]byte, feats map[string]bool, nvar
 				if reuse != "" && rapid.Bool().Draw(t, "reuse") {
 					f = reuse
 					feats["same_file_in_two_variables"] = true
+				}
+				if ev.kind == "bytes" {
+					if lastBytes != "" && rapid.Bool().Draw(t, "reusebytes") {
+						f = lastBytes
+						feats["same_file_in_two_byte_slices"] = true
+					}
+					lastBytes = f
 				}
 				reuse = f
 				ev.pats = []string{f}
@@ -370,10 +377,12 @@ func genModule(t *rapid.T) (files map[string][]byte, feats map[string]bool, nvar
 			switch ev.kind {
 			case "string":
 				fmt.Fprintf(&mainBody, "\tprintln(%q, \"string\", len(%s), hh.HS(%s))\n", tag, ref, ref)
+				fmt.Fprintf(&finalBody, "\tprintln(%q, \"string-at-end\", len(%s), hh.HS(%s))\n", tag, ref, ref)
 			case "bytes":
 				fmt.Fprintf(&mainBody, "\tprintln(%q, \"bytes\", len(%s), cap(%s) >= len(%s), hh.H(%s))\n", tag, ref, ref, ref, ref)
 				// a []byte variable is writable and private to the variable
 				fmt.Fprintf(&mainBody, "\tif len(%s) > 0 { %s[len(%s)-1] ^= 0x55; println(%q, \"after-write\", hh.H(%s)) }\n", ref, ref, ref, tag, ref)
+				fmt.Fprintf(&finalBody, "\tprintln(%q, \"bytes-at-end\", len(%s), hh.H(%s))\n", tag, ref, ref)
 			case "fs":
 				fmt.Fprintf(&mainBody, "\thh.Walk(%q, %s)\n", tag, ref)
 			}
@@ -392,7 +401,7 @@ func genModule(t *rapid.T) (files map[string][]byte, feats map[string]bool, nvar
 		fmt.Fprintf(&imp, "\t%q\n", im)
 	}
 	ms = strings.Replace(ms, "\t\"c16mod/hh\"\n", "\t\"c16mod/hh\"\n"+imp.String(), 1)
-	ms += "func main() {\n" + mainBody.String() + "\tprintln(\"done\")\n}\n"
+	ms += "func main() {\n" + mainBody.String() + finalBody.String() + "\tprintln(\"done\")\n}\n"
 	files["main.go"] = []byte(ms)
 	return files, feats, unit
 }
